@@ -172,6 +172,8 @@ namespace pika::detail {
                     auto p = reinterpret_cast<base_type*>(&embedded_storage);
                     other.get().move_into(p);
                     object = p;
+                    // the moved-from object still lives in other's embedded storage
+                    other.get().~base_type();
                 }
                 else
 #endif
@@ -201,6 +203,8 @@ namespace pika::detail {
                     auto p = reinterpret_cast<base_type*>(&embedded_storage);
                     other.get().move_into(p);
                     object = p;
+                    // the moved-from object still lives in other's embedded storage
+                    other.get().~base_type();
                 }
                 else
 #endif
